@@ -53,7 +53,7 @@ def prepare(machine, plan):
 def step_sig(plan):
     out = []
     for s in plan["steps"]:
-        t = s.get("tag", s.get("name", s["k"]))
+        t = s.get("tag") or s.get("name") or s.get("k") or s.get("op", "?")
         if s.get("fault"):
             t += "!" + s["fault"]["kind"]
         out.append(t)
